@@ -477,13 +477,35 @@ func corpusGen(w *gal.Writer) {
 		Rels: []relT{{fooE.ID, "GENERATED_FROM", src.ID}, {fooE2.ID, "GENERATED_FROM", src.ID}}}}}), "corpus/two-targets", "order of the Go map decides")
 	genCase(w, base([]apkT{foo}, []fsEnt{{"foo-1.0-r0.spdx.json", kDoc, &docT{Pkgs: []pkgT{fooE, fooE2, fooE3, src}, Desc: []string{fooE.ID, fooE2.ID, fooE3.ID},
 		Rels: []relT{{fooE.ID, "GENERATED_FROM", src.ID}, {fooE2.ID, "GENERATED_FROM", src.ID}, {fooE3.ID, "DEPENDS_ON", fooE.ID}}}}}), "corpus/three-targets", "six orders; some rename references to an element that was already removed")
+	// two described elements, one of which was already imported (together with another element of that name) through an
+	// earlier apk's SBOM: in the map order fresh-then-reused the first iteration removes the reused element and the second
+	// renames the references to the other earlier element to it (C11-F4)
+	fooDocA := apkT{"foo-doc", "1.0-r0", sum(8)}
+	fooDocE := mainElem(fooDocA)
+	fooUp := pkgT{ID: "SPDXRef-Package-foo-upstream", Name: "foo", Version: "1.0"}
+	genCase(w, base([]apkT{fooDocA, foo}, []fsEnt{
+		{"foo-doc-1.0-r0.spdx.json", kDoc, &docT{Pkgs: []pkgT{fooDocE, fooE, fooUp}, Desc: []string{fooDocE.ID},
+			Rels: []relT{{fooDocE.ID, "DEPENDS_ON", fooE.ID}, {fooDocE.ID, "DEPENDS_ON", fooUp.ID}}}},
+		{"foo-1.0-r0.spdx.json", kDoc, &docT{Pkgs: []pkgT{fooE2, fooE}, Desc: []string{fooE2.ID, fooE.ID}}}}),
+		"corpus/two-targets-reused-id", "Coq witness two_target_witness; order of the Go map decides")
+	// the same with the reused id being the one Generate mints for the apk itself: both orders dangle
+	ownID := pkgT{ID: "SPDXRef-Package-thismakestestspass-foo-1.0-r0", Name: "foo", Version: "1.0-r0"}
+	genCase(w, genIn{Layers: []hashT{l1}, OSVer: "3.0", Apks: []apkT{foo}, FS: []fsEnt{{"foo-1.0-r0.spdx.json", kDoc,
+		&docT{Pkgs: []pkgT{fooE, ownID, src}, Desc: []string{fooE.ID, ownID.ID}, Rels: []relT{{fooE.ID, "GENERATED_FROM", src.ID}, {ownID.ID, "GENERATED_FROM", src.ID}}}}}},
+		"corpus/two-targets-reused-id", "an embedded element carries the id Generate gives the apk's own element")
+	// control: two fresh targets while an earlier document carries other elements of that name (inside c11_refs_resolve_embedded)
+	genCase(w, base([]apkT{fooDocA, foo}, []fsEnt{
+		{"foo-doc-1.0-r0.spdx.json", kDoc, &docT{Pkgs: []pkgT{fooDocE, fooUp}, Desc: []string{fooDocE.ID}, Rels: []relT{{fooDocE.ID, "DEPENDS_ON", fooUp.ID}}}},
+		{"foo-1.0-r0.spdx.json", kDoc, &docT{Pkgs: []pkgT{fooE2, fooE, src}, Desc: []string{fooE2.ID, fooE.ID}, Rels: []relT{{fooE.ID, "GENERATED_FROM", src.ID}, {fooE2.ID, "DEPENDS_ON", fooE.ID}}}}}),
+		"corpus/two-targets-fresh", "")
 	// name of a later apk equals the name of an element imported earlier, different id: references are renamed
 	barSrc := pkgT{ID: "SPDXRef-Package-upstream-bar", Name: "bar", Version: "2.0"}
 	genCase(w, base([]apkT{foo, bar}, []fsEnt{{"foo-1.0-r0.spdx.json", kDoc, &docT{Pkgs: []pkgT{fooE, barSrc}, Desc: []string{fooE.ID}, Rels: []relT{{fooE.ID, "GENERATED_FROM", barSrc.ID}}}},
 		{"bar-2.0-r1.spdx.json", kDoc, barOnly}}), "corpus/rename-earlier-element", "")
 }
 
-var nameAtoms = []string{"lib", "ssl", "gtk", "+", "++", "C43", "-", "_", ".", ":", "py3", "foo", "bar", "z", "1", "2", "-dev", "-doc", "@", "~", "C", "4", "3", " ", "é"}
+var nameAtoms = []string{"lib", "ssl", "gtk", "+", "++", "C43", "-", "_", ".", ":", "py3", "foo", "bar", "z", "1", "2", "-dev", "-doc", "@", "~", "C", "4", "3", " ", "é",
+	"X", "Py", "typing_extensions", "C95", "ü"}
 
 func genName(r *gal.Rand) string {
 	n := 1 + r.Intn(4)
@@ -500,7 +522,7 @@ func genName(r *gal.Rand) string {
 func genVersion(r *gal.Rand) string {
 	v := fmt.Sprintf("%d.%d", r.Intn(4), r.Intn(3))
 	if r.Chance(1, 5) {
-		v += gal.Pick(r, []string{"_rc1", "_p2", "a", "~git", "+1", ":1"})
+		v += gal.Pick(r, []string{"_rc1", "_p2", "a", "~git", "+1", ":1", "_p20231125", "_git20230717", "@x", "RC1", "é"})
 	}
 	if r.Chance(3, 4) {
 		v += fmt.Sprintf("-r%d", r.Intn(12))
@@ -633,6 +655,68 @@ func randomGen(w *gal.Writer, r *gal.Rand, embedded bool, wild bool) {
 	genCase(w, g, class, "")
 }
 
+// two apks x-doc and x: x-doc's document imports elements carrying x's name, x's document describes TWO
+// elements carrying x's name, one of which may reuse an id of x-doc's document (C11-F4) or the id Generate mints
+func randomTwoTargets(w *gal.Writer, r *gal.Rand) {
+	g := genIn{OSVer: "3.19"}
+	if r.Chance(4, 5) {
+		g.Image = "sha256:" + hexOf(r, 64)
+	}
+	g.Layers = []hashT{sha(r)}
+	name := gal.Pick(r, []string{"foo", "lib+x", "a_b", "zz"})
+	x := apkT{name, genVersion(r), []byte{1, 2, 3}}
+	xd := apkT{name + "-doc", x.Version, []byte{4, 5, 6}}
+	mk := func(tag string) pkgT {
+		return pkgT{ID: "SPDXRef-Package-" + cleanID(name) + "-" + tag, Name: name, Version: x.Version}
+	}
+	me, d0 := mainElem(x), mainElem(xd)
+	up, alt, third := mk("upstream"), mk("alt"), mk("third")
+	src := pkgT{ID: "SPDXRef-Package-src", Name: "src", Version: "1"}
+	// x-doc's document
+	dd := &docT{Pkgs: []pkgT{d0}, Desc: []string{d0.ID}}
+	for _, p := range []pkgT{me, up, third, src} {
+		if r.Chance(2, 3) {
+			dd.Pkgs = append(dd.Pkgs, p)
+			if r.Chance(4, 5) {
+				dd.Rels = append(dd.Rels, relT{d0.ID, gal.Pick(r, []string{"DEPENDS_ON", "CONTAINS"}), p.ID})
+			}
+		}
+	}
+	if r.Chance(1, 2) {
+		for i := len(dd.Pkgs) - 1; i > 1; i-- {
+			j := 1 + r.Intn(i)
+			dd.Pkgs[i], dd.Pkgs[j] = dd.Pkgs[j], dd.Pkgs[i]
+		}
+	}
+	// x's document: two described elements carrying x's name
+	cands := []pkgT{me, up, alt, third}
+	if g.Image == "" && r.Chance(1, 4) {
+		cands = append(cands, pkgT{ID: "SPDXRef-Package-thismakestestspass-" + cleanID(x.Name+"-"+x.Version), Name: name, Version: x.Version})
+	}
+	i := r.Intn(len(cands))
+	j := r.Intn(len(cands) - 1)
+	if j >= i {
+		j++
+	}
+	t1, t2 := cands[i], cands[j]
+	dx := &docT{Pkgs: []pkgT{t1, t2, src}, Desc: []string{t1.ID, t2.ID}}
+	for _, e := range []pkgT{t1, t2} {
+		if r.Chance(2, 3) {
+			dx.Rels = append(dx.Rels, relT{e.ID, "GENERATED_FROM", src.ID})
+		}
+	}
+	if r.Chance(1, 3) {
+		dx.Rels = append(dx.Rels, relT{t1.ID, "DEPENDS_ON", t2.ID})
+	}
+	apks := []apkT{xd, x}
+	if r.Chance(1, 5) {
+		apks = []apkT{x, xd}
+	}
+	g.Apks = apks
+	g.FS = []fsEnt{{xd.Name + "-" + xd.Version + ".spdx.json", kDoc, dd}, {x.Name + "-" + x.Version + ".spdx.json", kDoc, dx}}
+	genCase(w, g, "random/embedded-two-targets", "")
+}
+
 func generateStage(dir string, seed uint64, tier string) error {
 	w := &gal.Writer{Dir: dir, Require: "From Apko Require Import Corr.C11.", Type: "gen_case", Check: "check_gen", Shard: 60}
 	corpusGen(w)
@@ -652,6 +736,10 @@ func generateStage(dir string, seed uint64, tier string) error {
 		default:
 			randomGen(w, r, true, true)
 		}
+	}
+	r2 := gal.NewRand(seed + 29)
+	for i := 0; i < n/8; i++ {
+		randomTwoTargets(w, r2)
 	}
 	return w.Flush()
 }
